@@ -32,6 +32,9 @@ class OversamplingWrapper(KDSubset):
             for i in range(len(class_counts)):
                 remaining_indices = max_class_count
                 indices_for_cur_class = (classes == i).nonzero().squeeze(1)
+                # if class is not contained in dataset -> cant oversample
+                if len(indices_for_cur_class) == 0:
+                    continue
                 while remaining_indices > 0:
                     perm = torch.arange(len(indices_for_cur_class))[:remaining_indices]
                     indices.append(indices_for_cur_class[perm])
